@@ -512,7 +512,8 @@ def roi_is_full(roi: NdROI, shape: Union[int, Tuple[int, ...]]) -> bool:
     if not isinstance(roi, tuple):
         roi = (roi,)
 
-    if not isinstance(shape, tuple):
+    # any sequence of ints is a shape (GeoBox.shape is a Shape2d, not a tuple)
+    if not isinstance(shape, abc.Sequence):
         shape = (shape,)
 
     return all(slice_full(s, n) for s, n in zip(roi, shape))
